@@ -298,7 +298,7 @@ def run(chk):
         "read_header is dominated by the magic/version test and a valid checksum; (d) K6 bounded sinks over all anchored "
         "parser units (split_line, get_line, base64/hex decode, canonicalize_name, libtar, fstree, xfrm streams, pack/"
         "sort/xattr file readers); (e) the codec wrappers re-enter their loop only on progress codes (K-codec, shared with C15); (f) the PAX 'already set' mask is zeroed whenever the decoded header is wiped. "
-        "(g) K8-dangling: a freed pointer is not left in caller-visible memory; (h) K1-progress: the archive member stream never reports success with zero bytes; (i) K1-chase: the hard-link resolution loop has a cycle exit. Termination in general is not decided.")
+        "(g) K8-dangling: a freed pointer is not left in caller-visible memory; (h) K1-progress: the archive member stream never reports success with zero bytes; (i) K1-chase: the hard-link resolution loop has a cycle exit; (j) K5-optnull: an option field that is NULL when the option is absent (it is compared with NULL somewhere) is not dereferenced -- directly, by libc, or by a callee that does not test its parameter -- unless a non-NULL test dominates the use or the option parser ties it to a field known to be NULL there (pack-file lines reach such uses). Termination in general is not decided.")
     chk.assumptions = ["cleanup after failure and name canonicalisation are decided by C13 and C18"]
     prog = load_program("all")
     files = anchored_files()
@@ -318,6 +318,10 @@ def run(chk):
     codec_rule(chk, load_program("tar2sqfs"))
     ok_progress_rule(chk, load_program("tar2sqfs"))     # corrupted compressed input must not make the wrappers spin
     cleanup_rule(chk)
+    from ..optnull import run_optnull
+    for tool in ("gensquashfs", "tar2sqfs"):
+        run_optnull(chk, load_program(tool), "K5-optnull")
+    chk.floor("K5-optnull", 6)
     controls(chk)
     chk.floor("K6-limit", 4)
     chk.floor("K6-index", 1)
@@ -341,3 +345,10 @@ def controls(chk):
     got = {(o["rule"], o["function"]) for o in sub.obl if o["verdict"] == "VIOLATED"}
     chk.control("K1-progress", ("K1-progress", "ctl_get_bad") in got, "success with a size that was never tested against zero")
     chk.control("K1-progress/silent", ("K1-progress", "ctl_get_good") not in got, "tested size must not be reported")
+    from ..optnull import run_optnull
+    sub9 = Check("C07-control", chk.tier)
+    run_optnull(sub9, prog, "K5-optnull")
+    got9 = {(o["rule"], o["function"]) for o in sub9.obl if o["verdict"] == "VIOLATED"}
+    chk.control("K5-optnull", ("K5-optnull", "ctl_opt_bad") in got9, "option field handed to a callee that calls strlen on it")
+    chk.control("K5-optnull/silent", ("K5-optnull", "ctl_opt_good") not in got9 and ("K5-optnull", "ctl_opt_tied") not in got9,
+                "tested / parser-tied option fields must not be reported")
